@@ -273,13 +273,30 @@ def p1_readouts(w):
 
 def observe_C04(w):
     try:
-        return p1_obs(p1_readouts(w))
+        rs = p1_readouts(w)
+        return p1_obs(rs)
     except ValueError as e:
         return "ctor:" + type(e).__name__
 
 
-def c04_readout_checks(r):
+def c04_touch(r, order):
+    """same accessor order as the symbolic harness used on this path"""
+    if order == 1:
+        try:
+            r.identification_line
+        except Exception:
+            pass
+    elif order == 2:
+        for acc in ("payload", "as_bytes", "expected_checksum", "end_line", "is_valid"):
+            try:
+                getattr(r, acc)
+            except Exception:
+                pass
+
+
+def c04_readout_checks(r, order=0):
     from . import ref_p1
+    c04_touch(r, order)
     raw = list(r.as_bytes)
     try:
         valid = bool(r.is_valid)
@@ -312,9 +329,9 @@ def judge_C04(w):
     except Exception as e:
         return {"signature": "exception:" + exc_signature(e), "detail": repr(e)}
     for r in rs:
-        v = c04_readout_checks(r)
+        v = c04_readout_checks(r, w.get("order", 0))
         if v:
-            return {"signature": v[0], "detail": v[1]}
+            return {"signature": v[0], "detail": v[1] + f" (accessors used first: order {w.get('order', 0)})"}
     return None
 
 
@@ -862,7 +879,7 @@ def c12_lemma_run(w):
     def mk(i):
         def dec(payload):
             if w["acc"][i]:
-                return {"decoder": i}
+                return {} if w.get("empty", [False] * 9)[i] else {"decoder": i}
             raise (ValueError("no") if w["verr"][i] else construct.ConstructError("no"))
         return dec
     try:
@@ -905,7 +922,7 @@ def judge_C12_lemma(w):
     if first is None:
         if r is not None or name != (None if w["prev"] < 0 else names[w["prev"]]):
             return {"signature": "selection-lemma", "detail": f"nobody accepts but result={r} remembered={name} (prev={w['prev']}, via={w['via']})"}
-    elif r != {"decoder": first} or name != names[first]:
+    elif r is None or r != ({} if w.get("empty", [False] * 9)[first] else {"decoder": first}) or name != names[first]:
         return {"signature": "selection-lemma", "detail": f"accept={w['acc']} prev={w['prev']} via={w['via']}: result={r} remembered={name}, expected decoder {first}"}
     return None
 
